@@ -228,6 +228,12 @@ def evaluate(t, env):
         return int(t[1])
     if op == "real":
         return Fraction(t[1], t[2])
+    if op in QUANT:
+        # finite sorts only: the bound variables range over their whole domain
+        names = [n for n, _ in t[1]]
+        doms = [domain(s_) for _, s_ in t[1]]
+        res = (evaluate(t[2], dict(env, **dict(zip(names, vals)))) for vals in itertools.product(*doms))
+        return all(res) if op == "forall" else any(res)
     if op == "select" and isinstance(evaluate(t[1], env), tuple):
         return evaluate(t[1], env)[int(evaluate(t[2], env))]
     if op == "store" and isinstance(evaluate(t[1], env), tuple):
@@ -409,7 +415,8 @@ class GenCtx(object):
     """what the generator may use: symbols by sort and knobs"""
 
     def __init__(self, symbols, bv=True, ints=False, usorts=False, int_consts=(-2, 3),
-                 rich_bv=True):
+                 rich_bv=True, quant=False):
+        self.quant = quant
         self.symbols = dict(symbols)       # name -> sort
         self.bv = bv
         self.ints = ints
@@ -474,10 +481,20 @@ def gen_term(tape, sort, depth, ctx):
             kinds += [(2, "ueq")]
         if ctx.usorts and ctx.arrays_over_usorts():
             kinds += [(3, "aeq")]
+        if ctx.usorts and ctx.quant and ctx.usort_list():
+            kinds += [(3, "uq")]
         ufu = [(n, s) for n, s in ctx.symbols.items() if is_fun(s) and is_usort(s[2])] if ctx.usorts else []
         if ufu:
             kinds += [(3, "ufeq")]
         k = tape.weighted(kinds, "bool.kind")
+        if k == "uq":
+            # a quantifier over a declared sort: the sort occurs in the binders (and maybe nowhere else)
+            s = tape.choice(ctx.usort_list(), "uq.sort")
+            # (pySMT's bound variables are symbols of the environment: one name per sort)
+            na, nb = "qa_%s" % s[1], "qb_%s" % s[1]
+            qa, qb = ["sym", na, s], ["sym", nb, s]
+            body = tape.choice([["not", ["=", qa, qb]], ["=", qa, qb], ["or", ["=", qa, qb], gen_term(tape, BOOL, 0, ctx)]], "uq.body")
+            return [tape.choice(QUANT, "uq.q"), [[na, s], [nb, s]], body]
         if k == "ufeq":
             # two applications of a function whose result sort is a declared sort: the sort occurs
             # only in the function's signature
